@@ -183,7 +183,8 @@ def build():
 
     def m_signature(interp, args, kwargs):
         f = args[0]
-        full = not interp.ctx.ghost.get("METHOD") or (isinstance(f, Opaque) and f.tag == "underlying")
+        # (a bound method of `def m(*args, ...)` keeps all its parameters: nothing is consumed by the instance)
+        full = interp.ctx.ghost.get("METHOD") is not True or (isinstance(f, Opaque) and f.tag == "underlying")
         return Opaque("signature", None, parameters=Opaque("paramsmap", None, full=full))
 
     p.models["inspect.signature"] = m_signature
@@ -217,7 +218,8 @@ def build():
     p.models["concat"] = concat
     p.assume_note("inspect.signature(func) returns a well-formed parameter list that matches the function (CPython): kinds ordered, one */** at most, distinct identifiers, block structure")
     p.assume_note("plain functions and bound methods (variant bound-method: the signature seen by inspect.signature(func) is that of func.__func__ without its first, positional, "
-                  "parameter; the underlying function receives [func.__self__] + args); functools.partial objects and methods whose first parameter is *args: bounded native oracle only")
+                  "parameter - or, variant bound-method-without-self-parameter, the whole signature when that first parameter is *args; the underlying function receives [func.__self__] + args); "
+                  "functools.partial objects: bounded native oracle only (finding K22)")
     glob = {"get_func_name": lambda interp: _Fn(lambda i, a, k: ((), STR.fresh(i.ctx, "fname")))}
 
     def G(interp, n):
@@ -225,7 +227,7 @@ def build():
 
     def OFF(interp):
         """number of leading parameters of SIG that inspect.signature(func) does not show (1 for a bound method: the instance)"""
-        return 1 if interp.ctx.ghost.get("METHOD") else 0
+        return 1 if interp.ctx.ghost.get("METHOD") is True else 0
 
     def setup(interp, env):
         ctx = interp.ctx
@@ -246,8 +248,12 @@ def build():
         ctx.assume(z3.ForAll([j], z3.Implies(z3.And(0 <= j, j < ign.length), IGN_IDX(z3.Select(ign.arr, j)) == j), patterns=[z3.Select(ign.arr, j)]))
         a0 = env.lookup("args")
         if g.get("METHOD"):
-            # the underlying function receives the instance first; its first parameter is positional (def m(*a) methods are out of scope)
-            ctx.assume(NP >= 1)
+            # the underlying function receives the instance first: either its first parameter is positional (variant bound-method) or
+            # it is *args (variant bound-method-without-self-parameter: def m(*args, ...)); a method without any positional slot cannot be called
+            if g["METHOD"] is True:
+                ctx.assume(NP >= 1)
+            else:
+                ctx.assume(z3.And(NP == 0, KLO == 1))
             g["ARGS0"] = prepend(ctx, Val, SELFV, a0, "args_with_self")
         else:
             g["ARGS0"] = a0.clone()
@@ -565,6 +571,17 @@ def build():
     ))
     p.add(Contract(
         FI, "filter_args", variant="bound-method", props=["C07", "C02", "C06"], ghost=dict(GH, METHOD=True), globals=glob, setup=full_setup,
+        params=dict(func=OpaqueOf("userfunc"), ignore_lst=ListOf(Name), args=ListOf(Val), kwargs=DictOf(Name, Val)),
+        requires=["accepts()", "ignore_known()"],
+        ensures={
+            "every_parameter_bound_as_python_does_minus_the_ignore_list": "result_ok(result)",
+            "surplus_positionals_under_star": "star_ok(result)",
+            "surplus_keywords_under_double_star": "dstar_ok(result)",
+        },
+        loops={1: L1, 2: L2, 3: L3, 4: L4},
+    ))
+    p.add(Contract(
+        FI, "filter_args", variant="bound-method-without-self-parameter", props=["C07", "C02", "C06"], ghost=dict(GH, METHOD="noself"), globals=glob, setup=full_setup,
         params=dict(func=OpaqueOf("userfunc"), ignore_lst=ListOf(Name), args=ListOf(Val), kwargs=DictOf(Name, Val)),
         requires=["accepts()", "ignore_known()"],
         ensures={
